@@ -214,6 +214,33 @@ func init() {
 				defs = append(defs, defaultsCase{KeyHex: hexs(rng.Bytes(1 + rng.Intn(40))), Unix: gen.UnixSeconds(rng, 30), Digits: uint8(gen.Pick(rng, []int{6, 7, 8, 9, 10, 1, 4})), Algo: uint8(rng.Intn(3))})
 			}
 			parallelJudge(c, defs, judgeDefaults)
+			// sequential history: (secret+x, step c) followed by (secret, step x‖c) and field-shifted neighbours
+			for i := 0; i < c.N(400, 6000); i++ {
+				key := rng.Bytes(10)
+				base := ref.Base32EncodeNoPad(key)
+				period := gen.Pick(rng, []uint64{30, 30, 60, 1, 0})
+				pp := period
+				if pp == 0 {
+					pp = 30
+				}
+				cstep := uint64(rng.Intn(1000))
+				d, a := 1+rng.Intn(10), rng.Intn(3)
+				call := func(secret string, step uint64) {
+					kb, derr := ref.Base32Decode(secret)
+					if derr != nil || ref.Base32EncodeNoPad(kb) != secret || step > (1<<62)/pp {
+						return // only canonical spellings (no stray trailing bits)
+					}
+					judgeTOTP(c, totpCase{KeyHex: hexs(kb), Secret: secret, At: gen.InstantSpec{Unix: int64(step*pp) + int64(rng.Intn(int(pp)))}, Period: period, Digits: uint8(d), Algo: uint8(a)})
+					c.R.Count("shifted_field_history_calls", 1)
+				}
+				for _, x := range []string{"24", "37", "2345", "77", "6652", "2", "7"} {
+					var joined uint64
+					fmt.Sscan(x+fmt.Sprint(cstep), &joined)
+					call(base+x, cstep)
+					call(base, joined)
+					call(base+x, cstep)
+				}
+			}
 			if reflect.ValueOf(otp.TimeCounterFunc).Pointer() != fp0 {
 				c.R.Violate("C02|TimeCounterFunc|replaced|", "the package-level time-counter function was replaced during the run", "none", nil, "unchanged", "changed")
 			}
